@@ -101,6 +101,25 @@ def run(tier, seed):
         except Exception:
             continue
         B.run_case(regrun.policy_of(pd), reg, "record", None, f"attobj-mutation/{fmt}", scn=None)
+    # expectations in a form the signature does not promise (several RP IDs as a list / tuple, the RP ID as bytes, several challenges): IF such a call is accepted
+    # at all, the response still carries SHA-256 of ONE listed RP ID and ONE listed challenge - never of a combination of them
+    import hashlib as _hl
+    for fmt in ("none", "packed-self"):
+        for ids, signed, what in ((["example.com", "example.org"], "example.comexample.org", "concatenation of the listed ids"), (["example.com", "example.org"], "example.org" + "example.com", "reverse concatenation"),
+                                  (["example.com", "example.org"], "example.com,example.org", "comma-joined ids"), (["example.com", "example.org"], "['example.com', 'example.org']", "repr of the list"),
+                                  (("example.com", "example.org"), "example.comexample.org", "concatenation (tuple)"), (["example.com", "example.org"], "evil.example", "an unlisted id"),
+                                  (["example.com", "example.org"], "example.org", None), (["example.com"], "example.com", None), (["example.com", "example.org", "example.net"], "example.comexample.orgexample.net", "concatenation of three")):
+            s = regsim.RScn(fmt, "ES256-P256")
+            s.rp_id, s.sign_rp_id = ids[0], signed
+            pd, reg = regsim.build(s)
+            pol = regrun.policy_of(pd)
+            pol.rp_id = ids
+            il = impl.verify_reg(pol, reg.as_dict())
+            chk.evals += 1
+            if il.startswith("OK") and what is not None:
+                chk.violation(f"expected_rp_id given as {type(ids).__name__} {list(ids)}: a response whose RP ID hash is SHA-256 of {what} is accepted", f"rp-id-collection {fmt} {what}",
+                              {"entry": "verify_registration_response", "expected_rp_id": list(ids), "hashed_string": signed, "credential": reg.as_dict(), "impl": il[:200]})
+            chk.seen(("rp-id-collection", fmt, signed))
     B.close()
     chk.notes.append({"oracle_queries": B.O.counts})
     fw.env_invariance(chk, "auth", "reg")          # the same seeded cases under -O / -OO, warnings-as-errors, other TZ / locale, a private CA bundle
